@@ -4,7 +4,7 @@ from __future__ import annotations
 
 import itertools
 
-from .. import e1, impl, refmodel
+from .. import envs, e1, impl, refmodel
 from ..chartgen import HEADERS, INSTRUMENTS, section
 
 ID = "C06"
@@ -53,6 +53,7 @@ VIAS = ("file", "path", "path-bom", "path-reuse")  # path-reuse: another chart o
 
 
 def setup():
+    envs.enable(32)  # E1-M: every 32th model-equality case again under every environment of mc/envs.py
     impl.load()
 
 
